@@ -27,11 +27,14 @@
    {"a","b",".","*","?"}; a port is one token ("22", "2222").  Norm/ParseAddr model Normalize and
    the pattern parser of newHostnameMatcher at that level ("[h]:p" for non-default ports).
 
-   Deliberate switches (the faithful value is the one describing the pinned code):
-     StarFix        FALSE: wildcardMatch as pinned (a '*' that ends the pattern, or a run of
-                    stars, facing the exhausted host fails: "a*" does not match "a");
-                    TRUE: the repaired loop (fixes/C42-wildcard-trailing-star.diff), = OpenSSH
-                    match_pattern.
+   Deliberate switches.  StarFix = SubjectFix = TRUE describes the code as it is (repairs f023288 and
+   ff86183 in /repo); FALSE describes the code before them and is kept as documentation only: TLC
+   still finds the counterexamples (KnownHosts_WOld / L2Old / SubjectOld.cfg), the code no longer
+   exhibits them.
+     StarFix        TRUE: wildcardMatch handles '*' before the end-of-host test and skips runs of
+                    stars (= OpenSSH match_pattern); FALSE: the former loop (a '*' that ends the
+                    pattern, or a run of stars, facing the exhausted host fails: "a*" does not
+                    match "a").
      CAListsPlain   TRUE (code): checkAddr also walks @cert-authority lines, so a plain host key
                     equal to a CA key on a matching @cert-authority line is accepted and such lines
                     appear in KeyError.Want.  The property text ("a non-revoked line ... lists that
@@ -40,14 +43,13 @@
      RevokedSubject TRUE: a certificate is revoked when its signing key or its subject public key is
                     @revoked (OpenSSH's check_key_not_revoked compares the certificate's public key with
                     sshkey_equal_public, which ignores the certificate part; confirmed with ssh 9.2: "REVOKED
-                    HOST KEY DETECTED").  FALSE: only via its signing key (what the pinned code does).
-     SubjectFix     FALSE: IsRevoked as pinned (whole certificate blob or signing key);
-                    TRUE: the repaired IsRevoked (fixes/C42-revoked-subject-key.diff) that also looks the
-                    certificate's subject key up. *)
+                    HOST KEY DETECTED").  FALSE: only via its signing key (the former reading).
+     SubjectFix     TRUE: IsRevoked also looks the certificate's subject key up;
+                    FALSE: the former IsRevoked (whole certificate blob or signing key only). *)
 EXTENDS Integers, Sequences, FiniteSets, TLC
 
-CONSTANTS FileSet,        \* files to explore; a file is a sequence of line records (see IsLine)
-          QuerySeq,       \* sequence of query records (see IsQuery)
+CONSTANTS CaseSet,        \* cases to explore: records [fam, f] -- a family tag and a file (a sequence of line records, see IsLine)
+          QueriesOf(_),   \* the sequence of query records (see below) put to the files of a family
           StarFix, SubjectFix,            \* which transcription of the package the state machine runs
           CAListsPlain, RevokedSubject    \* readings of the property
 
@@ -140,11 +142,11 @@ DecideD(f, q) ==
 RECURSIVE SkipStars(_)
 SkipStars(pat) == IF pat # <<>> /\ Head(pat) = "*" THEN SkipStars(Tail(pat)) ELSE pat
 
-\* wildcardMatch(pat, str); fix = FALSE is the pinned loop, fix = TRUE the repaired one
+\* wildcardMatch(pat, str); fix = TRUE is the loop as it is, fix = FALSE the former one (documentation)
 RECURSIVE WildT(_, _, _)
 WildT(fix, pat, str) ==
   IF pat = <<>> THEN str = <<>>
-  ELSE IF ~fix /\ str = <<>> THEN FALSE                              \* pinned: tested before the star
+  ELSE IF ~fix /\ str = <<>> THEN FALSE                              \* former loop: tested before the star
   ELSE IF Head(pat) = "*" THEN
          IF ~fix THEN IF Len(pat) = 1 THEN TRUE
                       ELSE \E j \in 1..Len(str) : WildT(fix, Tail(pat), SubSeq(str, j, Len(str)))
@@ -214,16 +216,18 @@ Same(rt, rd) == rt.t = rd.t /\ SeqSet(rt.want) = rd.want
 
 -----------------------------------------------------------------------------
 (* ---------- state machine ---------- *)
-VARIABLES file, db, qi, res, phase
-vars == <<file, db, qi, res, phase>>
+VARIABLES file, fam, db, qi, res, phase
+vars == <<file, fam, db, qi, res, phase>>
+QuerySeq == QueriesOf(fam)
 NoDB == [revoked |-> <<>>, lines |-> <<>>]
 NoRes == Res("none", <<>>, "")
 
-Init == /\ file \in FileSet /\ db = NoDB /\ qi = 0 /\ res = NoRes /\ phase = "file"
-New == /\ phase = "file" /\ db' = Parse(file) /\ phase' = "ready" /\ UNCHANGED <<file, qi, res>>
+Init == /\ \E c \in CaseSet : file = c.f /\ fam = c.fam
+        /\ db = NoDB /\ qi = 0 /\ res = NoRes /\ phase = "file"
+New == /\ phase = "file" /\ db' = Parse(file) /\ phase' = "ready" /\ UNCHANGED <<file, fam, qi, res>>
 Check(i) == /\ phase = "ready" /\ qi' = i /\ res' = DecideT(StarFix, SubjectFix, db, QuerySeq[i]) /\ phase' = "checked"
-            /\ UNCHANGED <<file, db>>
-Back == /\ phase = "checked" /\ phase' = "ready" /\ qi' = 0 /\ res' = NoRes /\ UNCHANGED <<file, db>>
+            /\ UNCHANGED <<file, fam, db>>
+Back == /\ phase = "checked" /\ phase' = "ready" /\ qi' = 0 /\ res' = NoRes /\ UNCHANGED <<file, fam, db>>
 Next == New \/ (\E i \in 1..Len(QuerySeq) : Check(i)) \/ Back
 Spec == Init /\ [][Next]_vars
 
